@@ -1,9 +1,11 @@
 /-
   Driver.C16 — stream `C16`.
 
-  payload := ( holder idx attrIdx doctype tree tree2 ops )
+  payload := ( holder idx attrIdx doctype tree tree2 pre ops )
     holder, idx, attrIdx, doctype, tree : as in Driver.C17 (holder also `validating`: a plain parser here)
     tree2  : the second, unrelated document (held by a plain parser)
+    pre    := ( ( at op arg* )* )   -- the history of document 0 before the observation starts: every attribute
+                                    -- list is read once, then these edits (Driver.C17 `edit` ops, no reindex)
     ops    := ( op* )      op := ( doc obs )      doc := 0 | 1
     obs    := read none | read one i | read two i j | read sub i | read html i | read inner i | read all | read dochtml
             | dochtml | outer i | inner i | starttag i | attrs i | pickle | clone i
@@ -97,15 +99,34 @@ def loop : World → String → List Sexp → List Sexp → List Sexp × World
           loop r.1 s rest (row :: acc)
     | _ => ((sym "bad-op" :: acc).reverse, w)
 
+def afterView : Pk.Holder → Pk.Holder
+  | .tree t => .tree (materialise t)
+  | .parser p => .parser p.afterGetstate
+
+def preEdits : Pk.Holder → Gen → List Sexp → Option (Pk.Holder × Gen)
+  | h, g, [] => some (h, g)
+  | h, g, .list (at_ :: op) :: rest =>
+    match toNat? at_, Driver.C17.toEdit op, h.root with
+    | some i, some e, some r =>
+      let l := DN.oids r
+      let t := if l.isEmpty then 0 else l[i % l.length]?.getD 0
+      preEdits (h.setRoot (applyEdit t g.oid g.uid e r)) ⟨g.oid + 1, g.uid + 1⟩ rest
+    | _, _, _ => none
+  | _, _, _ => none
+
 def runCase (holder : String) (idx : List Bool) (attrIdx : List Str) (doctype : Option Str) (tree tree2 : Sexp)
-    (ops : List Sexp) : Sexp :=
+    (pre ops : List Sexp) : Sexp :=
   -- document 0: the holder under observation (parser object 0); document 1: a plain parser (object 1)
   match mkDoc holder idx attrIdx doctype tree 0 ⟨2, 0⟩ with
   | none => .list [sym "build-raised"]
   | some (h0, g) =>
     match mkDoc "plain" [] [] none tree2 1 g with
     | none => .list [sym "build-raised"]
-    | some (h1, g') =>
+    | some (h1, g1) =>
+      -- the history of document 0: one full read of both documents, then the edits
+      match (if pre.isEmpty then some (h0, h1, g1) else (preEdits (afterView h0) g1 pre).map (fun r => (r.1, afterView h1, r.2))) with
+      | none => .list [sym "bad-pre"]
+      | some (h0, h1, g') =>
       let w : World := { docs := [h0, h1], next := g'.oid, nextUid := g'.uid }
       let s0 := (worldSx w).render
       let (rows, w') := loop w s0 ops []
@@ -114,9 +135,9 @@ def runCase (holder : String) (idx : List Bool) (attrIdx : List Str) (doctype : 
 
 def run (payload : String) : String :=
   match Sexp.parse payload with
-  | some (.list [.atom holder, .list idx, .list attrIdx, doctype, tree, tree2, .list ops]) =>
+  | some (.list [.atom holder, .list idx, .list attrIdx, doctype, tree, tree2, .list pre, .list ops]) =>
     match idx.mapM toBool?, attrIdx.mapM toStr?, toOptStr? doctype with
-    | some idx, some attrIdx, some doctype => (runCase holder idx attrIdx doctype tree tree2 ops).render
+    | some idx, some attrIdx, some doctype => (runCase holder idx attrIdx doctype tree tree2 pre ops).render
     | _, _, _ => "bad-case"
   | _ => "bad-case"
 
